@@ -208,7 +208,9 @@ fn poly(rng: &mut StdRng) -> Value {
 
 fn seed_texts(rng: &mut StdRng, chains: bool) -> Vec<String> {
     let pool = ["x", "y", "x+y", "2*x", "x*y-1", "z", "0", "1", "0.0", "1.0", "sin(x)", "x^2", "(x+1)/(y-2)", "3", "-x", "a*b", "x-x", "2/4", "{v w}+1", "abs(y)", "x/y/z",
-                "sin(cos(x))", "-sin(x*y)", "+cos(ln(z))", "exp(sin(cos(y)))", "tan(x)*0", "z*0", "0*(a+b)", "sin(y)", "sqrt(exp(x))"];
+                "sin(cos(x))", "-sin(x*y)", "+cos(ln(z))", "exp(sin(cos(y)))", "tan(x)*0", "z*0", "0*(a+b)", "sin(y)", "sqrt(exp(x))",
+                // constants that are a unary operator around a parenthesised / folded 0 or 1 (neutral-element tests must see the operator)
+                "-((1))", "cos((0))", "-(cos(0))", "exp((0))", "-(-(1))", "sin((1))*1"];
     let n = rng.random_range(2..=6);
     (0..n).map(|_| if chains && rng.random_bool(0.12) { chain_seed(rng) } else { pool.choose(rng).unwrap().to_string() }).collect()
 }
@@ -270,6 +272,9 @@ fn ops(rng: &mut StdRng, with: &[&str]) -> Value {
 
 /// operator application / substitution on expressions with many variables (merged lists beyond the inline capacity of 16)
 fn manyvars(rng: &mut StdRng) -> Value {
+    if rng.random_bool(0.2) {
+        return hugevars(rng);
+    }
     let mut pool: Vec<String> = vec![];
     for i in 0..20 { pool.push(format!("v{i:02}")); }
     for i in 0..12 { pool.push(format!("a{i:02}")); }
@@ -311,6 +316,87 @@ fn manyvars(rng: &mut StdRng) -> Value {
         size += 1;
     }
     json!({"seeds": seeds, "steps": steps, "tag": "manyvars"})
+}
+
+/// operator application on derivatives: a derivative keeps the variable list of its antiderivative although it may be a
+/// single node (`d/dx (x*y+z) = y` over [x, y, z], `d/dz = 1`), so the operands of the following calls list variables
+/// that do not occur in them
+fn dvars(rng: &mut StdRng) -> Value {
+    let pool: [(&str, usize); 8] = [("x*y+z", 3), ("x+y+z", 3), ("2*x+y", 2), ("a*b+c", 3), ("x*y", 2), ("u+v*3", 2), ("x+b", 2), ("q*r*1+s", 3)];
+    let mut seeds = vec![];
+    let mut nvars = vec![];
+    for _ in 0..rng.random_range(1..=3) {
+        let (t, n) = *pool.choose(rng).unwrap();
+        seeds.push(json!({"text": cps(t), "form": if rng.random_bool(0.3) { "flat" } else { "deep" }}));
+        nvars.push(n);
+    }
+    for t in ["2", "x", "1"] {
+        seeds.push(json!({"text": cps(t), "form": if rng.random_bool(0.3) { "flat" } else { "deep" }}));
+    }
+    let nd = nvars.len();
+    let mut size = seeds.len();
+    let mut steps = vec![];
+    let mut derived = vec![];
+    for _ in 0..rng.random_range(1..=3) {
+        let i = rng.random_range(1..=nd);
+        steps.push(json!({"act": "partial", "i": i, "k": rng.random_range(0..nvars[i - 1])}));
+        size += 1;
+        derived.push(size);
+    }
+    for _ in 0..rng.random_range(2..=4) {
+        let i = *derived.choose(rng).unwrap();
+        let j = if rng.random_bool(0.5) { *derived.choose(rng).unwrap() } else { rng.random_range(nd + 1..=nd + 3) };
+        let (i, j) = if rng.random_bool(0.5) { (i, j) } else { (j, i) };
+        let st = if rng.random_bool(0.5) {
+            json!({"act": "op_bin", "i": i, "j": j, "name": cps(["+", "*", "-", "/"].choose(rng).unwrap())})
+        } else {
+            let op = *["add", "mul", "sub", "div"].choose(rng).unwrap();
+            json!({"act": "std", "op": op, "i": i, "j": j})
+        };
+        steps.push(st);
+        size += 1;
+        if rng.random_bool(0.5) { derived.push(size); }
+    }
+    json!({"seeds": seeds, "steps": steps, "tag": "dvars"})
+}
+
+/// more variables than any fixed-width bookkeeping has bits for (129..200 distinct names in one expression): partial
+/// substitution maps (some names replaced, some kept), conversion and operator application on the result
+fn hugevars(rng: &mut StdRng) -> Value {
+    let pool: Vec<String> = (0..210).map(|i| format!("w{i:03}")).collect();
+    let k = *[129usize, 130, 140, 160, 192, 193, 200].choose(rng).unwrap();
+    let mut names = pool.clone();
+    names.shuffle(rng);
+    names.truncate(k);
+    let mut s = String::new();
+    for (i, n) in names.iter().enumerate() {
+        if i > 0 { s.push_str(["+", "-", "+"].choose(rng).unwrap()); }
+        s.push_str(n);
+        if rng.random_bool(0.2) { s.push_str(["*2", "*p", "*w000"].choose(rng).unwrap()); }
+    }
+    let mut seeds = vec![json!({"text": cps(&s), "form": if rng.random_bool(0.5) { "flat" } else { "deep" }})];
+    for t in ["p+q", "3", "w001*2", "q-w209"] {
+        seeds.push(json!({"text": cps(t), "form": if rng.random_bool(0.5) { "flat" } else { "deep" }}));
+    }
+    let mut size = seeds.len();
+    let mut steps = vec![];
+    for _ in 0..rng.random_range(1..=3) {
+        let i = if rng.random_bool(0.7) { 1 } else { size };
+        let st = match rng.random_range(0..6) {
+            0 | 1 | 2 | 3 => {
+                let mut ns = pool.clone();
+                ns.shuffle(rng);
+                ns.truncate(rng.random_range(1..=90));
+                let m: Vec<Value> = ns.iter().map(|n| json!([cps(n), rng.random_range(2..=5)])).collect();
+                json!({"act": "subs", "i": i, "map": m})
+            }
+            4 => json!({"act": if rng.random_bool(0.5) { "to_deep" } else { "to_flat" }, "i": i}),
+            _ => json!({"act": "op_bin", "i": i, "j": rng.random_range(2..=5), "name": cps(["+", "*", "-"].choose(rng).unwrap())}),
+        };
+        steps.push(st);
+        size += 1;
+    }
+    json!({"seeds": seeds, "steps": steps, "tag": "hugevars"})
 }
 
 /// composite expressions over the real float table with exact (dyadic) values: + - * / min max and signs, infix with and
@@ -510,6 +596,7 @@ pub fn main(args: &[String]) -> i32 {
             "print" => ops(&mut rng, &["print", "op", "std", "subs", "conv", "partial", "print"]),
             "advnames" => advnames(&mut rng),
             "manyvars" => manyvars(&mut rng),
+            "dvars" => dvars(&mut rng),
             "floatcomp" => floatcomp(&mut rng),
             "valdiff" => valdiff(&mut rng),
             _ => ops(&mut rng, &["op", "std", "conv", "subs", "print", "partial"]),
